@@ -658,7 +658,7 @@ type capCache struct {
 }
 
 func (c *capCache) Get(key string) (*tls.ClientSessionState, bool) { return nil, false }
-func (c *capCache) Put(key string, cs *tls.ClientSessionState)      { c.last = cs }
+func (c *capCache) Put(key string, cs *tls.ClientSessionState)     { c.last = cs }
 
 // ---- generators
 
@@ -774,6 +774,10 @@ func drawScsv(rt *rapid.T) *c41Scsv {
 
 func TestC41(t *testing.T) {
 	rec := ev.New("C41", "neg: std crypto/tls client (Min/MaxVersion TLS1.0-1.3, suite lists incl. legacy and unimplemented suites, curves, ALPN, SNI, session cache) x bfe_tls server config (Min/MaxVersion incl. default 0, suite list/default, server or client preference, equivalence groups, curves, RSA/ECDSA cert, per-SNI rule grade/NextProtos/chacha20); scsv: hand-built ClientHello with/without TLS_FALLBACK_SCSV at every version vs explicit and default MaxVersion, optionally with a valid ticket. non-trivial: client and server preference orders differ on the common suites, or SCSV present; distinct by (server config, client config)")
+	if w, ok := replayWitness(t); ok {
+		replayC41(t, rec, w)
+		return
+	}
 	getCerts()
 	// deterministic sweep of the SCSV clause: every hello version x every MaxVersion (explicit and default)
 	for _, max := range []uint16{0, vTLS10, vTLS11, vTLS12} {
